@@ -425,9 +425,9 @@ func c18Hpack(c *lab.Ctx) {
 		"whole / bytewise / in random fragments. lib sessions: MOSN enc -> x/net dec, x/net enc -> MOSN dec (control x/net -> x/net " +
 		"must reproduce the input, else the case is a generator fault, not a verdict). raw sessions: RFC 7541 writer with its own " +
 		"table model -> both decoders. distinct = (mode, direction, list-size class, table-size class, pending update, kinds used, fragmenting)")
-	nLib := c.Pick(700, 9000)
-	nRaw := c.Pick(700, 9000)
-	nHuff := c.Pick(4000, 60000)
+	nLib := c.Pick(2500, 30000)
+	nRaw := c.Pick(2500, 30000)
+	nHuff := c.Pick(20000, 200000)
 	maxLong := c.Pick(16384, 65536)
 	replay := c.ReplayCase()
 
